@@ -36,6 +36,8 @@ type Contract struct {
 	MayPanic  bool
 	Wrapping  bool
 	Allocates bool
+	NonblockingTypes map[string]bool // optional: only sends of these element types are checked
+	Nonblocking bool // every channel send in the function must find room in the buffer (event loops must never block on a waiter)
 	FuncTypes map[string]string // param or Type.field -> "pure"
 	Loops     map[int][]Clause
 	Steps     map[int][]Clause // per-iteration two-state clauses (prev(e) = value at the loop head)
@@ -61,6 +63,15 @@ type SpecFunc struct {
 	Axioms []Clause
 }
 
+// ChanValue: a value received from a channel of the given element type may be assumed to satisfy
+// Assume (sender-side contract); every send of such a value in a function under contract must establish Ensure.
+type ChanValue struct {
+	Var    string
+	Assume *Clause
+	Ensure *Clause
+	Pkg    string
+}
+
 type ContractTable struct {
 	C       map[string]*Contract
 	Funcs   map[string]*SpecFunc
@@ -70,19 +81,20 @@ type ContractTable struct {
 	GhostFields map[string]string // "pkg.Type.field" -> type
 	Consts  map[string]string
 	GhostDefaults map[string]string // ghost field key -> default value of freshly allocated objects
+	ChanValues map[string][]ChanValue // element type string -> facts about values travelling through channels of that type
 	InitFacts map[string][]Clause // "pkgname.global" -> facts established by the package initialiser (assumed)
 }
 
 func newContractTable() *ContractTable {
-	return &ContractTable{C: map[string]*Contract{}, Funcs: map[string]*SpecFunc{}, Imports: map[string]string{}, GhostFields: map[string]string{}, Consts: map[string]string{}, GhostDefaults: map[string]string{}, InitFacts: map[string][]Clause{}}
+	return &ContractTable{C: map[string]*Contract{}, Funcs: map[string]*SpecFunc{}, Imports: map[string]string{}, GhostFields: map[string]string{}, Consts: map[string]string{}, GhostDefaults: map[string]string{}, ChanValues: map[string][]ChanValue{}, InitFacts: map[string][]Clause{}}
 }
 
-var tagRe = regexp.MustCompile(`^\[([A-Za-z0-9_.:+\-]+)\]\s*`)
+var tagRe = regexp.MustCompile(`^\[([A-Za-z0-9_.:+~\-]+)\]\s*`)
 var pkgClauseRe = regexp.MustCompile(`^package\s+(\w+)`)
 
 var clauseKeywords = map[string]bool{"requires": true, "ensures": true, "modifies": true, "pure": true, "assumed": true,
 	"functype": true, "loop": true, "results": true, "params": true, "maypanic": true, "wrapping": true, "assert": true, "use": true, "allocates": true,
-	"before": true, "dead": true, "func": true, "iface": true, "lemma": true, "import": true, "initfact": true, "axiom": true, "ghostfield": true, "uninterp": true, "const": true}
+	"nonblocking": true, "before": true, "dead": true, "func": true, "iface": true, "lemma": true, "import": true, "chanvalue": true, "initfact": true, "axiom": true, "ghostfield": true, "uninterp": true, "const": true}
 
 // loadContractFile parses one file. defaultPkg is used for keys without package qualifier
 // (the Go package name of the file for in-repo contract files).
@@ -171,6 +183,23 @@ func (ct *ContractTable) loadContractFile(path string) error {
 				return fmt.Errorf("%s:%d: bad const", path, rl.line)
 			}
 			ct.Consts[strings.TrimSpace(parts[0])] = strings.TrimSpace(parts[1])
+		case "chanvalue":
+			// chanvalue <elemtype> <var> assume|ensure <expr>
+			if len(fields) < 5 || (fields[3] != "assume" && fields[3] != "ensure") {
+				return fmt.Errorf("%s:%d: bad chanvalue", path, rl.line)
+			}
+			r2 := strings.TrimSpace(rest[strings.Index(rest, " "+fields[3]+" ")+len(fields[3])+2:])
+			c, err := mkClause(r2, rl.line)
+			if err != nil {
+				return err
+			}
+			cv := ChanValue{Var: fields[2], Pkg: defaultPkg}
+			if fields[3] == "assume" {
+				cv.Assume = &c
+			} else {
+				cv.Ensure = &c
+			}
+			ct.ChanValues[fields[1]] = append(ct.ChanValues[fields[1]], cv)
 		case "initfact":
 			// initfact name : expr      (name is a package-level variable of this package)
 			parts := strings.SplitN(rest, ":", 2)
@@ -321,6 +350,14 @@ func (ct *ContractTable) loadContractFile(path string) error {
 				cur.Assumed = true
 			case "maypanic":
 				cur.MayPanic = true
+			case "nonblocking":
+				cur.Nonblocking = true
+				for _, t := range fields[1:] {
+					if cur.NonblockingTypes == nil {
+						cur.NonblockingTypes = map[string]bool{}
+					}
+					cur.NonblockingTypes[t] = true
+				}
 			case "wrapping":
 				cur.Wrapping = true
 			case "allocates":
